@@ -2,29 +2,59 @@
 (* Bounded model of the debugger's gates: every request of the product (command x secret x  *)
 (* host verdict x cookie x frame x entered PIN) from every reachable value of the failure   *)
 (* counter, for the four (evalex, pin) configurations, i.e. every history of requests.      *)
+(* With ConfigOn the configuration (PIN A / B / none, evalex, trusted-hosts list) changes between   *)
+(* requests: every configuration history interleaved with every request history.              *)
 (* The implementation-shaped step (DebuggerGate!ImplStep) is checked against the contract   *)
 (* (DebuggerGate!Clause) on every transition; `fails` is the contract's own counter.        *)
 EXTENDS DebuggerGate, TLC, Json
 
-CONSTANTS Variant, ExportCnts
+CONSTANTS Variant, ExportCnts,
+          CookieSet, PinSet,      \* the cookie / entered-PIN classes of the request product
+          HostCs,                 \* host classes: "D" trusted by the default list only, "O" by the other list only,
+                                  \*               "N" by neither, "E" either verdict allowed
+          ConfigOn                \* TRUE: the configuration actions SetPin / ClearPin / SetEvalex / SetTrustedHosts are enabled
+
+Reqs == [cmd : Cmds, secret : Secrets, hc : HostCs, cookie : CookieSet, frame : Frames, pin : PinSet]
 
 VARIABLES cfg, cnt, fails, bad, act
 vars == <<cfg, cnt, fails, bad, act>>
 View == <<cfg, cnt, fails, bad>>
 
-Init == /\ cfg \in [evalex : BOOLEAN, pin_on : BOOLEAN]
+\* cfg.tl: which trusted-hosts list is set ("def" | "oth")
+Init == /\ cfg \in [evalex : BOOLEAN, pin_on : BOOLEAN, pin : {"A"}, tl : {"def"}]
         /\ cnt = 0 /\ fails = 0 /\ bad = "ok"
         /\ act = [q |-> "init"]
 
 Trusts(q) == IF q.hv = "T" THEN {TRUE} ELSE IF q.hv = "U" THEN {FALSE} ELSE BOOLEAN
 
-Next == \E q \in Requests : \E tr \in Trusts(q) :
+HvOf(hc, tl) == CASE hc = "D" -> (IF tl = "def" THEN "T" ELSE "U")
+                   [] hc = "O" -> (IF tl = "oth" THEN "T" ELSE "U")
+                   [] hc = "E" -> "E"
+                   [] OTHER -> "U"
+
+Request == \E r \in Reqs :
+          LET q == [cmd |-> r.cmd, secret |-> r.secret, hv |-> HvOf(r.hc, cfg.tl), cookie |-> r.cookie,
+                    frame |-> r.frame, pin |-> r.pin] IN
+          \E tr \in Trusts(q) :
           LET s == ImplStep(Variant, cfg, cnt, q, tr) IN
           /\ cnt' = s.cnt
           /\ fails' = ContractNext(cfg, fails, q, s.o)
           /\ bad' = Clause(cfg, fails, q, s.o)
           /\ act' = [q |-> q, o |-> s.o]
           /\ UNCHANGED cfg
+
+\* the public attributes of a live DebuggedApplication: app.pin = B / A, app.pin = None, app.evalex = b,
+\* app.trusted_hosts = [...].  Neither the failure counter nor the lock-out is touched by them.
+Configure == /\ ConfigOn
+             /\ \/ \E p \in {"A", "B"} : cfg' = [cfg EXCEPT !.pin = p, !.pin_on = TRUE]     \* SetPin
+                \/ cfg' = [cfg EXCEPT !.pin_on = FALSE]                                      \* ClearPin
+                \/ \E b \in BOOLEAN : cfg' = [cfg EXCEPT !.evalex = b]                       \* SetEvalex
+                \/ \E l \in {"def", "oth"} : cfg' = [cfg EXCEPT !.tl = l]                    \* SetTrustedHosts
+             /\ cfg' # cfg
+             /\ act' = [q |-> "config"]
+             /\ UNCHANGED <<cnt, fails, bad>>
+
+Next == Request \/ Configure
 
 \* every clause of the contract on every transition
 ContractHolds == bad = "ok"
@@ -36,7 +66,7 @@ TypeOK == cnt \in 0..255 /\ fails \in 0..(LockAfter + 1)
 
 \* the export only needs the neighbourhood of the lock-out threshold
 ExportBound == cnt <= 13
-Export == IF cnt \in ExportCnts /\ act'.q.hv # "E"
+Export == IF cnt \in ExportCnts /\ act'.q # "config" /\ act'.q.hv # "E"
           THEN PrintT(ToJson([cfg |-> cfg, cnt |-> cnt, fails |-> fails, q |-> act'.q, o |-> act'.o, cnt2 |-> cnt']))
           ELSE TRUE
 =============================================================================
